@@ -241,6 +241,24 @@ def run(prog, tier, extra=None):
                                 % (name, show(key)[:90]), b.loc(s_[1])))
             n += 1
 
+    # R4b: a wholesale release (utxo_map.clear() / drain / retain without the removed element) is a release "for transactions that
+    # left the pool" only where the whole pool has already left it: the site must be dominated, in its body, by a site that empties
+    # Mempool.transactions (clear / drain / take, or the call that hands the whole map to Block::create)
+    for path, (b, sites) in sorted(map_sites.items()):
+        name = path.split("::", 4)[-1]
+        for s_ in sites:
+            if s_[0] != "call" or s_[3] != "remove" or s_[2].rsplit("::", 1)[-1] not in ("clear", "drain", "split_off", "truncate"):
+                continue
+            res.instance(R4)
+            emptied = [x[1] for x in tx_sites.get(path, (b, []))[1]
+                       if x[3] in ("remove", "replace", "unknown") and (x[0] == "assign" or x[2].rsplit("::", 1)[-1] in ("clear", "drain", "take", "replace", "create"))]
+            if any(e != s_[1] and b.dominates(e, s_[1]) for e in emptied):
+                res.sample({"rule": R4, "site": b.loc(s_[1]), "body": name, "verdict": "wholesale release after the whole pool was taken out"})
+            else:
+                res.add(Finding(R4, "C14.release-only-removed|%s|wholesale" % path,
+                                "%s releases every input reservation (%s) at a point where the pooled transactions are still in the pool: if it returns before they "
+                                "are removed, a conflicting spender of any pooled input is admitted" % (name, s_[2].rsplit("::", 1)[-1]), b.loc(s_[1])))
+
     # R5: the cached routing work follows the pool: after a removal the counter is reset-and-recomputed (a constant
     # assignment, in this body or in a callee on the way out) or decremented; after an insertion it is incremented or reset
     from ..callgraph import CallGraph
